@@ -477,6 +477,23 @@ def rates_parser(F, rep):
                 dominates_push = all(b.dominates(s, p[0]) for p in pushes)
                 if dominates_push and all(p[0] not in arm for p in pushes):
                     pos = True
+                    # …and EVERY row is judged: before the test only the iteration, the recognition of the currency code and
+                    # the parse of the number may send a row another way; a row skipped for any other reason (a currency seen
+                    # before) is a non-positive rate the file is not rejected for (seeded change C08-s6)
+                    from roles import guards_of
+                    skipped = []
+                    for cond, val, where in guards_of(b, tb, s):
+                        txt2 = show(cond)
+                        if isinstance(cond, tuple) and cond and cond[0] == "discr" and any(k in txt2 for k in ("next(", "from_code(", "branch(", "from_str(")):
+                            continue
+                        if isinstance(cond, tuple) and cond and cond[0] == "discr" and isinstance(cond[1], tuple) and cond[1] and cond[1][0] == "param":
+                            continue
+                        if "parse_period" in txt2 or "expected" in txt2:
+                            continue
+                        skipped.append(txt2[:70])
+                    rep.ob("R7", "rate:every-row-judged", not skipped, "every row with a recognised currency reaches the non-positive test" if not skipped else
+                           f"rows are skipped before the non-positive test under {skipped[:2]}: a file with a zero or negative rate in such a row is accepted",
+                           b.loc(sw["sp"]), key="R7:rate:every-row-judged")
     rep.ob("R7", "period:year-checked", yr, "period year is compared with the expected year before any entry is pushed" if yr else
            "no dominating comparison of the file's year with the expected year", b.loc(), key="R7:period:year")
     rep.ob("R7", "period:month-checked", mo, "period month is compared with the expected month before any entry is pushed" if mo else
@@ -533,7 +550,7 @@ def wiring(F, rep):
 
 
 def folder_scan(F, rep):
-    """R8 (a rate supplied in the user's folder replaces the bundled one): the front-end's directory scan hands EVERY `.xml` file
+    """R9 (a rate supplied in the user's folder replaces the bundled one): the front-end's directory scan hands EVERY `.xml` file
     to the loader. Between `read_dir` and the construction of a `RateFile`, the only conditions are the iteration, error
     propagation and the test of the extension; a further filter on the file's name or stem silently leaves supplied rates out and
     the bundled ones in force (seeded change C08-s5) — rejecting a mislabelled file is the loader's job (R6/R7), with an error."""
@@ -569,12 +586,12 @@ def folder_scan(F, rep):
                 for xb, xi in chain:
                     xt = Terms(F, xb, inline_depth=2)
                     extra += [show(cond)[:80] for cond, val, where in guards_of(xb, xt, xi) if not benign(cond)]
-                rep.ob("R8", f"{chain[0][0].short}:every-xml-file", not extra, "every .xml file of the folder becomes a rates file for the loader" if not extra else
+                rep.ob("R9", f"{chain[0][0].short}:every-xml-file", not extra, "every .xml file of the folder becomes a rates file for the loader" if not extra else
                        f"rates files are also filtered by {extra[:2]}: a supplied file that fails the test is skipped without a message and the bundled rate stays in force",
-                       b.loc(s["sp"]), key=f"R8:{chain[0][0].short}:folder-filter")
+                       b.loc(s["sp"]), key=f"R9:{chain[0][0].short}:folder-filter")
     rep.count("folder_scan_sites", n)
     if n < 1:
-        rep.unresolved("R8", "folder-scan", "no directory scan building RateFile values found in the front-ends")
+        rep.unresolved("R9", "folder-scan", "no directory scan building RateFile values found in the front-ends")
 
 
 def run(ctx, rep):
